@@ -153,6 +153,7 @@ def split_shared_switch_targets(d):
 
 class Facts:
     def __init__(self, path):
+        self.path = path
         with open(path) as f:
             d = json.load(f)
         from .simplify import strip_drop_scaffolding
